@@ -117,6 +117,17 @@ Definition spec_key_registered (rec : bool) (key : string) (ops : list op) : boo
 Definition is_derive_op (o : op) : bool :=
   match o with OpDerivesAll _ | OpAttrsAll _ | OpDerivesFor _ _ _ | OpAttrsFor _ _ _ => true | _ => false end.
 
+(** the type-specific (false) or recursive (true) map of a derive registry *)
+Definition side (dr : derives_registry) (rc : bool) : kmap :=
+  if rc then dr_recursive dr else dr_specific dr.
+
+(** all derives / attributes that occur as arguments of the history's calls *)
+Definition history_args (ops : list op) : list kt :=
+  flat_map (fun o => match o with
+                     | OpDerivesAll l | OpAttrsAll l | OpDerivesFor _ l _ | OpAttrsFor _ l _ => l
+                     | _ => []
+                     end) ops.
+
 (** two lists read as sets *)
 Definition set_eq {A} (a b : list A) : Prop := forall x, In x a <-> In x b.
 Definition kmap_get_or_empty (m : kmap) (key : string) : derives :=
